@@ -126,12 +126,25 @@ struct Pm {
 }
 
 impl Pm {
+  /// largest displacement of a collection focus from the crystal centre, in Rayleigh ranges of that beam:
+  /// |z0|/z_R = 2·ξ·|z0|/L
+  fn zr(&self) -> f64 {
+    let l = self.s.crystal_setup.length;
+    let zs = (self.s.signal_waist_position / l).value_unsafe.abs();
+    let zi = (self.s.idler_waist_position / l).value_unsafe.abs();
+    (2.0 * self.xi_s * zs).max(2.0 * self.xi_i * zi)
+  }
   fn tokens(&self) -> String {
     let xm = self.xi_p.max(self.xi_s).max(self.xi_i);
     format!(
-      "{} thr={} xi_p={:.4} xi_s={:.4} xi_i={:.4} xi_max={:.4} xi_si={:.4} d_pm={:e} sigma={:e} cfg={}",
+      "{} thr={} zs_um={:.3} zi_um={:.3} zoff_s={:.3} zoff_i={:.3} zr={:.4} xi_p={:.4} xi_s={:.4} xi_i={:.4} xi_max={:.4} xi_si={:.4} d_pm={:e} sigma={:e} cfg={}",
       self.meta.tokens(),
       self.s.pump_spectrum_threshold,
+      self.s.signal_waist_position.value_unsafe * 1e6,
+      self.s.idler_waist_position.value_unsafe * 1e6,
+      (self.s.signal_waist_position / self.s.crystal_setup.length).value_unsafe.abs(),
+      (self.s.idler_waist_position / self.s.crystal_setup.length).value_unsafe.abs(),
+      self.zr(),
       self.xi_p,
       self.xi_s,
       self.xi_i,
@@ -190,6 +203,61 @@ fn gen_pm(ctx: &mut Ctx, opts: &GenOpts) -> Option<Pm> {
   make_pm(ctx, cfg, meta)
 }
 
+/// phase-matched setups whose collection foci are explicit and clearly different: one arm or both displaced to
+/// ±(0.5 … 5)·L from the crystal centre (the fields are set on the built setup; `zs_um` / `zi_um` in the detail)
+fn gen_displaced(ctx: &mut Ctx, opts: &GenOpts) -> Option<Pm> {
+  let mut p = gen_pm(ctx, opts)?;
+  let l = p.s.crystal_setup.length;
+  let mut pick = |ctx: &mut Ctx| {
+    let f = ctx.rng.log_range(0.5, 5.0) * if ctx.rng.below(4) == 0 { 1.0 } else { -1.0 };
+    l * ((f * 100.0).round() / 100.0)
+  };
+  match ctx.rng.below(3) {
+    0 => p.s.signal_waist_position = pick(ctx),
+    1 => p.s.idler_waist_position = pick(ctx),
+    _ => {
+      p.s.signal_waist_position = pick(ctx);
+      p.s.idler_waist_position = pick(ctx);
+    }
+  }
+  // half of them "moderately focused": idler focusing ξ_i ∈ [0.25, 0.55] (below the D9 region), signal waist larger
+  // (ξ_s = ξ_i·(0.15 … 1)), pump waist comparable to the idler's, all within the statement's 20–300 µm; the signal focus
+  // displaced by (1 … 5)·L
+  if ctx.rng.below(4) < 3 {
+    let w_for = |b: &Beam, s: &SPDC, x: f64| -> f64 {
+      let n = *b.refractive_index(b.frequency(), &s.crystal_setup);
+      let lam = b.vacuum_wavelength().value_unsafe;
+      (s.crystal_setup.length.value_unsafe * lam / (2.0 * std::f64::consts::PI * n * x)).sqrt()
+    };
+    let xi_i = ctx.rng.range(0.25, 0.55);
+    let xi_s = xi_i * ctx.rng.range(0.15, 1.0);
+    let wi = w_for(&p.s.idler, &p.s, xi_i);
+    let ws = w_for(&p.s.signal, &p.s, xi_s);
+    let wp = (wi * ctx.rng.range(0.5, 1.5)).clamp(20e-6, 300e-6);
+    if (20e-6..=300e-6).contains(&wi) && (20e-6..=300e-6).contains(&ws) {
+      p.s.idler.set_waist(wi * M);
+      p.s.signal.set_waist(ws * M);
+      p.s.pump.set_waist(wp * M);
+      p.s.signal_waist_position = l * (-(ctx.rng.range(1.0, 5.0) * 100.0).round() / 100.0);
+      p.meta.wi_um = (wi * 1e7).round() / 10.0;
+      p.meta.ws_um = (ws * 1e7).round() / 10.0;
+      p.meta.wp_um = (wp * 1e7).round() / 10.0;
+      p.xi_i = xi(&p.s.idler, &p.s);
+      p.xi_s = xi(&p.s.signal, &p.s);
+      p.xi_p = xi(&p.s.pump, &p.s);
+      ctx.count("displaced-collection-focus/moderately-focused");
+    }
+  } else if ctx.rng.coin() {
+    let ws = p.s.signal.waist().x.value_unsafe;
+    let wi = (ws * ctx.rng.range(0.4, 1.0)).max(20e-6);
+    p.s.idler.set_waist(wi * M);
+    p.meta.wi_um = (wi * 1e7).round() / 10.0;
+    p.xi_i = xi(&p.s.idler, &p.s);
+  }
+  ctx.count("displaced-collection-focus");
+  Some(p)
+}
+
 /// counter-propagating phase-matched setups: poled (auto period — sub-micron), both orientations (signal forward with
 /// the idler leaving through the entrance face, and the exchanged one), collinear or slightly tilted, any crystal/type,
 /// waists and lengths over the statement's ranges
@@ -234,7 +302,16 @@ fn gen_high_eff(ctx: &mut Ctx) -> Option<Pm> {
   cfg["pump"]["spectrum_threshold"] = serde_json::json!(thr);
   let mut meta = fixed_meta("KTP", "Type2_e_eo", true, l, wp, wc, wc);
   meta.idler_explicit = false;
-  make_pm(ctx, cfg, meta)
+  let mut p = make_pm(ctx, cfg, meta)?;
+  // half of them with the signal focus moved by 0.08 … 0.35 Rayleigh ranges (either side of the automatic position):
+  // near-unity heralding leaves no room for an idler mode evaluated at the wrong focus
+  if ctx.rng.coin() {
+    let zr_target = ctx.rng.range(0.08, 0.35) * if ctx.rng.coin() { 1.0 } else { -1.0 };
+    let z_r = p.s.crystal_setup.length / (2.0 * p.xi_s);
+    p.s.signal_waist_position = p.s.signal_waist_position + z_r * zr_target;
+    ctx.count("high-efficiency-setups/displaced-signal-focus");
+  }
+  Some(p)
 }
 
 // ------------------------------------------------------------------------------------------------
@@ -447,12 +524,21 @@ fn rates(ctx: &mut Ctx, p: &Pm, integ: Integrator, n: usize, wing: bool) {
     }
   };
   let (c, rs, ri) = (*(e.coincidences / HZ), *(e.signal_singles / HZ), *(e.idler_singles / HZ));
+  // jsi / min(singles) at the central pair (part of the region description of the findings D9z)
+  let ratio_centre = guard(|| {
+    let js = p.s.joint_spectrum(integ);
+    let cc = ju(js.jsi(w0s, w0i));
+    let m = ju(js.jsi_singles(w0s, w0i)).min(ju(js.jsi_singles_idler_range(SignalIdlerFrequencyArray(vec![w0s, w0i]))[0]));
+    if m > 0.0 { cc / m } else if cc > 0.0 { f64::INFINITY } else { 0.0 }
+  })
+  .unwrap_or(f64::NAN);
   let d = format!(
-    "{} integ={} grid={}x{} C={:e} Rs={:e} Ri={:e} eff_sym={:.6} eff_s={:.6} eff_i={:.6}",
+    "{} integ={} grid={}x{} ratio_centre={:.6} C={:e} Rs={:e} Ri={:e} eff_sym={:.6} eff_s={:.6} eff_i={:.6}",
     p.tokens(),
     name,
     n,
     n,
+    ratio_centre,
     c,
     rs,
     ri,
@@ -636,10 +722,39 @@ fn routes(ctx: &mut Ctx, p: &Pm) {
     let js = p.s.joint_spectrum(integ);
     let arr = (js.jsi_range(range), js.jsi_singles_range(range));
     let pts: Vec<(Frequency, Frequency)> = range.as_steps().into_iter().collect();
+    // the idler singles are the signal singles of the setup with signal and idler exchanged — exchanged by hand here
+    // from the public fields (beams, phase-matching type, BOTH waist positions), not through with_swapped_signal_idler
+    let s = &p.s;
+    let mut cs = s.crystal_setup.clone();
+    cs.pm_type = cs.pm_type.inverse();
+    let hand = SPDC::new(
+      cs,
+      s.idler.clone().as_beam().into(),
+      s.signal.clone().as_beam().into(),
+      s.pump.clone(),
+      s.pump_bandwidth,
+      s.pump_average_power,
+      s.pump_spectrum_threshold,
+      s.pp.clone(),
+      s.idler_waist_position,
+      s.signal_waist_position,
+      s.deff,
+    );
+    let jh = hand.joint_spectrum(integ);
+    let idl = js.jsi_singles_idler_range(range);
+    let rel12 = |x: f64, y: f64| x == y || (x - y).abs() <= 1e-12 * x.abs().max(y.abs());
+    let idler_ok = pts.iter().enumerate().all(|(k, (ws, wi))| rel12(ju(jh.jsi_singles(*wi, *ws)), ju(idl[k])));
+    let st = range.as_steps();
+    let dw2 = ((fr(st.0 .1) - fr(st.0 .0)) / 2.0) * ((fr(st.1 .1) - fr(st.1 .0)) / 3.0);
+    let ri_hand = get_counts_correction(s) * pts.iter().map(|(ws, wi)| ju(jh.jsi_singles(*wi, *ws)) * dw2).sum::<f64>();
+    let idler_rate_ok = {
+      let got = *(e.idler_singles / HZ);
+      got == ri_hand || (got - ri_hand).abs() <= 1e-9 * got.abs().max(ri_hand.abs())
+    };
     let point_ok = pts.iter().enumerate().all(|(k, (ws, wi))| ju(js.jsi(*ws, *wi)).to_bits() == ju(arr.0[k]).to_bits() && ju(js.jsi_singles(*ws, *wi)).to_bits() == ju(arr.1[k]).to_bits());
-    (e, m, f, ef, e_wl, e_wl_f, point_ok)
+    (e, m, f, ef, e_wl, e_wl_f, point_ok, idler_ok, idler_rate_ok)
   });
-  let (e, m, f, ef, e_wl, e_wl_f, point_ok) = match r {
+  let (e, m, f, ef, e_wl, e_wl_f, point_ok, idler_ok, idler_rate_ok) = match r {
     Some(x) => x,
     None => {
       ctx.count("skip/joint-spectrum-panic");
@@ -663,6 +778,12 @@ fn routes(ctx: &mut Ctx, p: &Pm) {
   }
   if !point_ok {
     bad.push("point-vs-range");
+  }
+  if !idler_ok {
+    bad.push("idler-singles-are-not-the-singles-of-the-exchanged-setup");
+  }
+  if !idler_rate_ok {
+    bad.push("idler-singles-rate-is-not-that-of-the-exchanged-setup");
   }
   let ok = bad.is_empty();
   ctx.s("C08.routes", ok, if ok { "routes/ok" } else { "routes/differ" }, &format!("{} which={}", p.tokens(), if ok { "-".to_string() } else { bad.join("+") }));
@@ -690,7 +811,7 @@ fn boundary(ctx: &mut Ctx, p: &Pm) {
   let above = f64::from_bits(alpha.to_bits() + 1);
   if let (Some(at), Some(ab)) = (eval(alpha), eval(above)) {
     let cp = if p.meta.cp { "/counter-propagating" } else { "" };
-    let in_d9 = p.xi_s.max(p.xi_i) >= 0.6;
+    let in_d9 = p.xi_s.max(p.xi_i) >= 0.6 || p.zr() >= 0.4;
     let ok_at = at.0 >= 0.0 && ((at.0 == 0.0) || (at.1 > 0.0 && at.2 > 0.0)) && (in_d9 || at.0 <= at.1.min(at.2) * (1.0 + 1e-9));
     let ok_above = ab.0 == 0.0 && ab.1 == 0.0 && ab.2 == 0.0;
     let ok = ok_at && ok_above;
@@ -1041,6 +1162,8 @@ pub fn run(ctx: &mut Ctx) {
   let focus = mode == "focus";
   // (mode "cp": counter-propagating setups only)
   let cp_only = mode == "cp";
+  // (mode "displaced": explicit, clearly different collection foci only)
+  let displaced_only = mode == "displaced";
   let opts = GenOpts {
     waist: if focus { (20.0, 110.0) } else { (20.0, 300.0) },
     length: if focus { (2000.0, 20000.0) } else { (500.0, 20000.0) },
@@ -1074,11 +1197,13 @@ pub fn run(ctx: &mut Ctx) {
     let p = if let Some((cfg, meta, he)) = fixed.pop() {
       high_eff = he;
       make_pm(ctx, cfg, meta)
-    } else if !focus && !cp_only && tries % 5 == 0 {
+    } else if !focus && !cp_only && !displaced_only && tries % 5 == 0 {
       high_eff = true;
       gen_high_eff(ctx)
     } else if cp_only || (!focus && tries % 5 == 2) {
       gen_cp(ctx, &opts)
+    } else if displaced_only || (!focus && tries % 5 == 4) {
+      gen_displaced(ctx, &opts)
     } else {
       gen_pm(ctx, &opts)
     };
@@ -1108,6 +1233,9 @@ pub fn run(ctx: &mut Ctx) {
     singles_k(ctx, &p.s, p.s.signal.frequency(), p.s.idler.frequency());
     if done % 3 == 0 {
       history_rates(ctx, &p);
+    }
+    if done % 3 != 1 && p.zr() >= 0.4 {
+      routes(ctx, &p);
     }
     if done % 3 == 1 {
       routes(ctx, &p);
